@@ -21,6 +21,10 @@ def handle (op : String) (args : List String) : Option String :=
   | "tt.resp", [b] => do
     let b ← parseHex b
     pure (showO (fun (c, r) => s!"{c} {showHex r}") (parseResponse b))
+  | "tt.upn", [n, ul, uo, dl, dO] => do
+    -- the buffer is n zero bytes: only its length matters to the slicing
+    let n ← n.toNat?; let ul ← ul.toNat?; let uo ← uo.toNat?; let dl ← dl.toNat?; let dO ← dO.toNat?
+    pure (showO (fun (u, d) => s!"{u.length} {d.length}") (upnSlices (List.replicate n 0) ul uo dl dO))
   | _, _ => none
 
 end Driver.Total
